@@ -362,6 +362,243 @@ theorem late_loop_c (C : CtxC h main reg T rank) (o : Nat) (ob : Obj) (hob : h[o
       simp only [List.length_append, List.length_cons, List.length_nil, Nat.zero_add] at e'
       exact e'
 
+/-- from the late loop's result to the cell invariant, given that the callback fields were recorded -/
+theorem cellVals_of_done {st : LState} {c : Nat} : ∀ (k0 : Nat) (fs : List Field) (ls : List LVal),
+    DoneVals reg st.memo fs ls →
+    (∀ k f, fs[k]? = some f → f.phase = .cb → (c, k0 + k, encVal reg f.val) ∈ st.pend ∧ c ∈ st.callbacks) →
+    CellVals reg st c k0 fs ls
+  | _, [], [], _, _ => trivial
+  | _, _ :: _, [], h, _ => by simp [DoneVals] at h
+  | _, [], _ :: _, h, _ => by simp [DoneVals] at h
+  | k0, f :: fs, l :: ls, h, hcb => by
+    refine ⟨?_, cellVals_of_done (k0 + 1) fs ls h.2 (fun k g hk hg => by
+      have := hcb (k + 1) g (by simpa using hk) hg
+      have e : k0 + (k + 1) = k0 + 1 + k := by omega
+      rw [e] at this; exact this)⟩
+    have h1 := h.1
+    by_cases hp : f.phase = .cb
+    · simp only [hp, if_true] at h1 ⊢
+      have := hcb 0 f (by simp) hp
+      exact ⟨h1, by simpa using this.1, this.2⟩
+    · simp only [hp, if_false] at h1 ⊢; exact h1
+
+theorem encFields_get (fs : List Field) (k : Nat) :
+    (encFields reg fs)[k]? = (fs[k]?).map (fun f => (f.phase, encVal reg f.val)) := by
+  simp [encFields]
+
+/-- **One loader call** for a registered name: early phase, allocation, registration (of the object and,
+for a plain loader with callback fields, of its callback), late phase. -/
+theorem loadRec_named_ok (C : CtxC h main reg T rank) (f' : Nat) (prog : List Str) (o : Nat) (n : Str)
+    (hon : (o, n) ∈ reg) (ob : Obj) (hob : h[o]? = some ob) (hrefs : RefsIn reg ob.fields)
+    (st : LState) (hinv : LInvC h reg prog st) (hmemo : lookupMemo st.memo n = none) (hnw : n ∉ st.working)
+    (hw : ∀ w ∈ st.working, ∃ q, (q, w) ∈ reg ∧ rank o < rank q)
+    (hfuel : todo reg st + 1 < f' + 1 + 1)
+    (hlateIdle : (∃ g ∈ ob.fields, g.phase = .late) → st.working ≠ [])
+    (ih : ∀ prog, ChildOkC h reg T rank prog (f' + 1)) :
+    ∃ st4 i, loadRec (object T (f' + 1)) (some n) { st with working := n :: st.working } ob.cls
+        (encFields reg ob.fields) = (st4, .ok i) ∧
+      LInvC h reg prog st4 ∧ LExtC st st4 ∧ lookupMemo st4.memo n = some i := by
+  have hobm : ob ∈ h := List.mem_of_getElem? hob
+  let st1 : LState := { st with working := n :: st.working }
+  have inv1 : LInvC h reg prog st1 := by
+    refine ⟨hinv.keysNodup, hinv.valsNodup, ?_, hinv.bound, hinv.pendOk, ?_⟩
+    · intro w hwm
+      rcases List.mem_cons.mp hwm with e | e
+      · rw [e]; exact hmemo
+      · exact hinv.disj w e
+    · intro e he hnp
+      obtain ⟨hlt, o', ob', lo', a1, a2, a3, a4, a5⟩ := hinv.good e he hnp
+      exact ⟨hlt, o', ob', lo', a1, a2, a3, a4,
+        CellVals.mono (st := st) (st' := st1) (MemoLe.refl _) (fun _ x => x) (fun _ x => x) a5⟩
+  have hw1 : ∀ w ∈ st1.working, ∃ q, (q, w) ∈ reg ∧ rank o ≤ rank q := by
+    intro w hwm
+    rcases List.mem_cons.mp hwm with e | e
+    · exact ⟨o, by rw [e]; exact hon, Nat.le_refl _⟩
+    · obtain ⟨q, hq1, hq2⟩ := hw w e; exact ⟨q, hq1, by omega⟩
+  have htodo1 : todo reg st1 < todo reg st :=
+    todo_lt_of_new hon (MemoLe.refl _) (fun w hw' _ hmem => hw' (List.mem_cons_of_mem _ hmem)) hmemo hnw
+      (Or.inr List.mem_cons_self)
+  obtain ⟨st2, vals, eres, inv2, ext2, rel2⟩ :=
+    resolve_early_c C o ob hob hrefs f' prog (ih prog) ob.fields (fun _ hg => hg) st1 inv1 (by simp [st1]) hw1 (by omega)
+  have hn2 : lookupMemo st2.memo n = none := by
+    apply inv2.disj; rw [ext2.work]; exact List.mem_cons_self
+  have hwork2 : st2.working = n :: st.working := ext2.work
+  let i := st2.heap.length
+  let flds := encFields reg ob.fields
+  let regCb : Bool := flds.any (fun f => f.1 == .cb) && !flds.any (fun f => f.1 == .late)
+  let st3 : LState :=
+    { memo := (n, i) :: st2.memo, working := st.working,
+      heap := st2.heap ++ [{ cls := ob.cls, fields := vals }],
+      callbacks := if regCb then st2.callbacks ++ [i] else st2.callbacks,
+      pend := if regCb then st2.pend ++ cbSources i 0 flds else st2.pend }
+  have hle : MemoLe st2.memo st3.memo := memoLe_cons i hn2
+  have hpend23 : ∀ e ∈ st2.pend, e ∈ st3.pend := by
+    intro e he; simp only [st3]; split
+    · exact List.mem_append_left _ he
+    · exact he
+  have hcbs23 : ∀ c ∈ st2.callbacks, c ∈ st3.callbacks := by
+    intro c hc; simp only [st3]; split
+    · exact List.mem_append_left _ hc
+    · exact hc
+  have hmem3 : lookupMemo st3.memo n = some i := by simp [st3, lookupMemo]
+  have inv3 : LInvC h reg (n :: prog) st3 := by
+    refine ⟨?_, ?_, ?_, ?_, ?_, ?_⟩
+    · simp only [st3, List.map_cons, List.nodup_cons]
+      exact ⟨(lookupMemo_none_iff _ _).mp hn2, inv2.keysNodup⟩
+    · simp only [st3, List.map_cons, List.nodup_cons]
+      refine ⟨?_, inv2.valsNodup⟩
+      intro hmem
+      obtain ⟨e, he, hei⟩ := List.mem_map.mp hmem
+      have := inv2.bound e he
+      simp only [i] at hei; omega
+    · intro w hwm
+      have hwn : w ≠ n := fun e => hnw (e ▸ hwm)
+      have : lookupMemo st2.memo w = none := by
+        apply inv2.disj; rw [hwork2]; exact List.mem_cons_of_mem _ hwm
+      simp only [st3, lookupMemo, Ne.symm hwn, if_false]; exact this
+    · intro e he
+      simp only [st3, List.length_append, List.length_cons, List.length_nil]
+      rcases List.mem_cons.mp he with e1 | e1
+      · subst e1; simp [i]
+      · have := inv2.bound e e1; omega
+    · intro e he
+      have hold : e ∈ st2.pend → PendOk h reg st3 e := fun h2 => (inv2.pendOk e h2).mono hle
+      simp only [st3] at he
+      split at he
+      · rcases List.mem_append.mp he with h2 | h2
+        · exact hold h2
+        · obtain ⟨c, k, j⟩ := e
+          obtain ⟨rfl, _, hget⟩ := (cbSources_mem i flds 0 c k j).mp h2
+          simp only [Nat.sub_zero, flds, encFields_get] at hget
+          cases hf : ob.fields[k]? with
+          | none => rw [hf] at hget; cases hget
+          | some f =>
+            rw [hf] at hget
+            simp only [Option.map_some, Option.some.injEq, Prod.mk.injEq] at hget
+            exact ⟨n, o, ob, f, hmem3, hon, hob, hf, hget.1, hget.2.symm⟩
+      · exact hold he
+    · intro e he hnp
+      rcases List.mem_cons.mp he with e1 | e1
+      · subst e1; exact absurd List.mem_cons_self hnp
+      · obtain ⟨hlt, o', ob', lo', a1, a2, a3, a4, a5⟩ := inv2.good e e1 (fun hp => hnp (List.mem_cons_of_mem _ hp))
+        refine ⟨by simp only [st3, List.length_append, List.length_cons, List.length_nil]; omega,
+          o', ob', lo', a1, a2, ?_, a4, CellVals.mono hle hpend23 hcbs23 a5⟩
+        simp only [st3]; rw [List.getElem?_append_left hlt]; exact a3
+  have hcell3 : st3.heap[i]? = some { cls := ob.cls, fields := [] ++ vals } := by
+    simp only [st3, i, List.nil_append]; exact heap_concat_get _ _
+  have htodo3 : todo reg st3 < todo reg st :=
+    todo_lt_of_new hon (ext2.memo.trans hle) (fun w hw' _ => hw') hmemo hnw (Or.inl (by rw [hmem3]; rfl))
+  obtain ⟨st4, ls', elate, inv4, ext4, cell4, done4, mem4⟩ :=
+    late_loop_c C o ob hob hrefs f' prog n i ob.cls (ih (n :: prog))
+      ob.fields [] (by simp) st3 [] vals inv3 hcell3 trivial (InitValsC.mono hle rel2) hmem3 hlateIdle hw (by omega)
+  have hwork4 : st4.working = st.working := ext4.work
+  -- the callback fields of the new object have been recorded
+  have hrec : ∀ k f, ob.fields[k]? = some f → f.phase = .cb → (i, 0 + k, encVal reg f.val) ∈ st4.pend ∧ i ∈ st4.callbacks := by
+    intro k f hk hfc
+    have hany : flds.any (fun f => f.1 == .cb) = true := by
+      rw [List.any_eq_true]
+      exact ⟨(f.phase, encVal reg f.val), List.mem_map.mpr ⟨f, List.mem_of_getElem? hk, rfl⟩, by simp [hfc]⟩
+    have hnolate : flds.any (fun f => f.1 == .late) = false := by
+      rw [List.any_eq_false]
+      intro e he
+      obtain ⟨g, hg, rfl⟩ := List.mem_map.mp he
+      intro hgl
+      have hgl' : g.phase = .late := by simpa using hgl
+      exact C.noGenCb ob hobm ⟨g, hg, hgl'⟩ f (List.mem_of_getElem? hk) hfc
+    have hreg : regCb = true := by simp only [regCb, hany, hnolate]; rfl
+    constructor
+    · apply ext4.pend
+      simp only [st3, hreg, if_true]
+      apply List.mem_append_right
+      rw [cbSources_mem]
+      refine ⟨rfl, Nat.zero_le _, ?_⟩
+      simp only [Nat.zero_add, Nat.sub_zero, flds, encFields_get, hk, Option.map_some, hfc]
+    · apply ext4.cbs
+      simp only [st3, hreg, if_true]
+      exact List.mem_append_right _ List.mem_cons_self
+  have inv4' : LInvC h reg prog st4 := by
+    refine ⟨inv4.keysNodup, inv4.valsNodup, inv4.disj, inv4.bound, inv4.pendOk, ?_⟩
+    intro e he hnp
+    by_cases hen : e.1 = n
+    · have hei : e.2 = i := by
+        have := lookupMemo_of_mem inv4.keysNodup (show (e.1, e.2) ∈ st4.memo from he)
+        rw [hen, mem4] at this; exact (Option.some.inj this).symm
+      rw [hen, hei]
+      exact ⟨by rw [← hei]; exact inv4.bound e he, o, ob, _, hon, hob, cell4, rfl,
+        cellVals_of_done 0 ob.fields ls' done4 hrec⟩
+    · exact inv4.good e he (fun hp => by
+        rcases List.mem_cons.mp hp with e1 | e1
+        · exact hen e1
+        · exact hnp e1)
+  have ext04 : LExtC st st4 := by
+    refine ⟨(ext2.memo.trans hle).trans ext4.memo, ?_, hwork4,
+      fun e he => ext4.pend e (hpend23 e (ext2.pend e he)), fun c hc => ext4.cbs c (hcbs23 c (ext2.cbs c hc))⟩
+    have h02 : HeapLe st.heap st2.heap := ext2.heap
+    refine ⟨by
+      have := h02.1; have := ext4.len
+      simp only [st3, List.length_append, List.length_cons, List.length_nil] at this; omega, ?_⟩
+    intro j hj
+    have hj2 : j < st2.heap.length := Nat.lt_of_lt_of_le hj h02.1
+    rw [ext4.others j (by simp only [st3, List.length_append, List.length_cons, List.length_nil]; omega)
+      (by simp only [i]; omega)]
+    simp only [st3]
+    rw [List.getElem?_append_left hj2]
+    exact h02.2 j hj
+  refine ⟨st4, i, ?_, inv4', ext04, mem4⟩
+  show loadRec (object T (f' + 1)) (some n) st1 ob.cls flds = (st4, .ok i)
+  unfold loadRec
+  rw [eres]
+  have elate' := elate
+  simp only [st3, i, regCb, flds, List.length_nil] at elate'
+  simp only [hwork2, List.erase_cons_head, flds]
+  rw [elate']
+
+theorem tryCallbacksIfIdle_busy (obj : LState → JVal → LRes LVal) (st : LState) (hb : st.working ≠ []) :
+    tryCallbacksIfIdle obj st = st := by
+  unfold tryCallbacksIfIdle
+  cases hw : st.working with
+  | nil => exact absurd hw hb
+  | cons a r => rfl
+
+theorem todo_pos_of_new {st : LState} {o : Nat} {n : Str} (hon : (o, n) ∈ reg)
+    (hmemo : lookupMemo st.memo n = none) (hnw : n ∉ st.working) : 1 ≤ todo reg st := by
+  unfold todo
+  apply List.length_pos_of_mem (a := (o, n))
+  simp [List.mem_filter, hon, hmemo, hnw]
+
+/-- **Loading a registered name while something is under construction** (so no callback is tried). -/
+theorem load_named_cb (C : CtxC h main reg T rank) : ∀ (f : Nat) (prog : List Str), ChildOkC h reg T rank prog f
+  | 0, _ => by intro p m _ st _ _ _ hf; exact absurd hf (Nat.not_lt_zero _)
+  | f0 + 1, prog => by
+    intro o n hon st hinv hbusy hw hf
+    have hlit : isLiteralStr n = false := C.regOk.notLiteral (o, n) hon
+    unfold LoadsOkC
+    cases hmemo : lookupMemo st.memo n with
+    | some i =>
+      refine ⟨st, i, ?_, hinv, LExtC.refl _, hmemo⟩
+      simp only [object, hlit, hmemo]
+      rfl
+    | none =>
+      obtain ⟨ob, hob, hrec, hrefs⟩ := C.tbl o n hon
+      have hnw : n ∉ st.working := by
+        intro hmem
+        obtain ⟨q, hq1, hq2⟩ := hw n hmem
+        have := C.regOk.obj_unique hon hq1
+        subst this; omega
+      have hcont : st.working.contains n = false := by simpa using hnw
+      have htodo := todo_pos_of_new hon hmemo hnw
+      obtain ⟨f', rfl⟩ : ∃ f', f0 = f' + 1 := ⟨f0 - 1, by omega⟩
+      obtain ⟨st4, i, hload, inv4, ext4, mem4⟩ :=
+        loadRec_named_ok C f' prog o n hon ob hob hrefs st hinv hmemo hnw hw hf (fun _ => hbusy)
+          (fun prog' => load_named_cb C (f' + 1) prog')
+      refine ⟨st4, i, ?_, inv4, ext4, mem4⟩
+      rw [object_named_unfold T (f' + 1) st n ob.cls (encFields reg ob.fields) hlit hmemo hrec hcont, hload]
+      have hwork4 : st4.working = st.working := ext4.work
+      have herase : st4.working.erase n = st4.working := by
+        rw [hwork4]; exact List.erase_of_not_mem hnw
+      have hst : ({ st4 with working := st4.working.erase n } : LState) = st4 := by rw [herase]
+      simp only [hst, tryCallbacksIfIdle_busy _ st4 (by rw [hwork4]; exact hbusy)]
+
 end
 
 end GlueVerif.C02
